@@ -515,9 +515,17 @@ class Run:
             if res.status == "failed":
                 # second run for the solver's assignment (concrete playback)
                 cmd2 = cmd[:7] + ["-Z", "concrete-playback", "--concrete-playback=print"] + cmd[7:]
+
+                def limit2():
+                    # trace generation needs more memory than the verdict alone (measured: a 16 GB harness
+                    # whose playback run was killed at 16 GB and therefore produced no values)
+                    b = min(max(2 * h.mem_gb, 32), 44) * (1 << 30)
+                    resource.setrlimit(resource.RLIMIT_AS, (b, b))
+                    os.setsid()
+
                 with open(logf + ".pb", "w") as lf:
                     p = subprocess.Popen(cmd2, cwd=self.crate, env=self.env, stdout=lf, stderr=subprocess.STDOUT,
-                                         preexec_fn=limit)
+                                         preexec_fn=limit2)
                     try:
                         p.wait(timeout=h.timeout * 2)
                     except subprocess.TimeoutExpired:
